@@ -63,9 +63,9 @@ GmVerdict(o) ==
         ELSE IF AddUnit(Midnight(o.wit[1]), o.n, o.unit) # <<o.wit[2], o.s1, o.u1>> THEN "month_keeps_day_or_rolls"
         ELSE ""
 
-\* the clause of the statement a wrong result of call c on `lists` breaks
-SessClause(lists, c) ==
-    LET items == ArgItems(lists, c[3]) IN
+\* the clause of the statement a wrong result of call cl on `lists` breaks
+SessClause(lists, cl) ==
+    LET items == ArgItems(lists, cl[3]) IN
     IF Len(items) # 1 THEN "compound_left_to_right"
     ELSE IF items[1][1] # "tenor" THEN "fixed_exact"
     ELSE IF Len(items[1][2]) > 1 THEN "compound_left_to_right"
